@@ -2,7 +2,10 @@
    Models: model/PollM.v (polling / pairing loops of the engine classes, stop rule),
    model/EngineM.v (shared contract, stop rule before the repair of L11).  Proofs: proofs/PollP.v.
    Every statement is unbounded: any order function, interfaces, length limit, trajectory,
-   arrival schedule and exit code.  [fx] = stop rule (true = /repo now), [rv] = reverse. *)
+   arrival schedule and return code.  [fx] = stop rule (true = /repo now), [rv] = reverse.
+   [code] is the SIGNED return code subprocess reports when the program has ended by itself
+   (exit status >= 0, or -N for death by signal N); [strict] is the failure test applied to it
+   (PollM.exit_failed: true = `!= 0` as in /repo, false = the refuted variant `> 0`). *)
 From Coq Require Import ZArith List Bool Lia.
 Import ListNotations.
 From Inf Require Import model.PathM model.EngineM model.PollM proofs.PollP.
@@ -84,23 +87,23 @@ Proof. vm_compute. reflexivity. Qed.
 (* ---------------------------------------------------------------- LAMMPS *)
 (* any arrival schedule: the outcome is the stop rule over the own-data frames (frame k:
    positions, velocity direction and BOX of frame k, config index k) of the visible prefix *)
-Theorem C12_lammps_prefix_until_stop : forall fx ord left right rv traj code p0 reads,
+Theorem C12_lammps_prefix_until_stop : forall fx ord left right rv traj code strict p0 reads,
   Forall (fun cb => (fst cb <= length traj)%nat) reads ->
-  same_outcome code (lammps_run fx ord left right rv traj code true p0 false reads)
+  same_outcome code strict (lammps_run fx ord left right rv traj code strict true p0 false reads)
                (run_frames fx left right p0 (own_stream ord rv (firstn (vmax reads) traj))).
 Proof. exact lammps_fixed_any_schedule. Qed.
 Print Assumptions C12_lammps_prefix_until_stop.
 
-Theorem C12_lammps_schedule_independent : forall fx ord left right rv traj code p0 reads,
+Theorem C12_lammps_schedule_independent : forall fx ord left right rv traj code strict p0 reads,
   Forall (fun cb => (fst cb <= length traj)%nat) reads -> vmax reads = length traj ->
-  same_outcome code (lammps_run fx ord left right rv traj code true p0 false reads)
+  same_outcome code strict (lammps_run fx ord left right rv traj code strict true p0 false reads)
                (run_frames fx left right p0 (own_stream ord rv traj)).
 Proof. exact lammps_schedule_independent. Qed.
 Print Assumptions C12_lammps_schedule_independent.
 
-Theorem C12_lammps_returns_prefix : forall fx ord left right rv traj code p0 dead reads p s ps,
+Theorem C12_lammps_returns_prefix : forall fx ord left right rv traj code strict p0 dead reads p s ps,
   Forall (fun cb => (fst cb <= length traj)%nat) reads ->
-  lammps_run fx ord left right rv traj code true p0 dead reads = Ret p s ps ->
+  lammps_run fx ord left right rv traj code strict true p0 dead reads = Ret p s ps ->
   run_frames fx left right p0 (own_stream ord rv traj) = SStop p s.
 Proof. exact lammps_returns_prefix. Qed.
 Print Assumptions C12_lammps_returns_prefix.
@@ -108,38 +111,38 @@ Print Assumptions C12_lammps_returns_prefix.
 (* a non-zero exit never gives a normal return without a stop (both pairings) *)
 Theorem C12_lammps_failure_raises : forall fx ord left right rv traj code fixL2 p0 dead reads,
   code <> 0 ->
-  match lammps_run fx ord left right rv traj code fixL2 p0 dead reads with
+  match lammps_run fx ord left right rv traj code true fixL2 p0 dead reads with
   | Trunc _ _ => False
   | _ => True
   end.
-Proof. exact lammps_failure_raises. Qed.
+Proof. exact lammps_failure_raises_strict. Qed.
 Print Assumptions C12_lammps_failure_raises.
 
-Theorem C12_lammps_dead_before_output_raises : forall fx ord left right rv traj code fixL2 p0 reads,
-  lammps_run fx ord left right rv traj code fixL2 p0 true reads =
-  if code =? 0 then lammps_run fx ord left right rv traj code fixL2 p0 false reads
-  else Raise p0 (PExited code).
+Theorem C12_lammps_dead_before_output_raises : forall fx ord left right rv traj code strict fixL2 p0 reads,
+  lammps_run fx ord left right rv traj code strict fixL2 p0 true reads =
+  if exit_failed strict code then Raise p0 (PExited code)
+  else lammps_run fx ord left right rv traj code strict fixL2 p0 false reads.
 Proof. exact lammps_run_dead. Qed.
 Print Assumptions C12_lammps_dead_before_output_raises.
 
-Theorem C12_lammps_terminated_at_end : forall fx ord left right rv traj code fixL2 p0 dead reads,
-  pstate_of (lammps_run fx ord left right rv traj code fixL2 p0 dead reads) <> Some PRunning.
+Theorem C12_lammps_terminated_at_end : forall fx ord left right rv traj code strict fixL2 p0 dead reads,
+  pstate_of (lammps_run fx ord left right rv traj code strict fixL2 p0 dead reads) <> Some PRunning.
 Proof. exact lammps_terminated_at_end. Qed.
 Print Assumptions C12_lammps_terminated_at_end.
 
 (* lead L2: the pairing before the repair (box_trajectory.pop()) *)
 Theorem C12_lammps_pop_last_refuted :
   exists ord left right traj reads p s ps,
-    lammps_run true ord left right false traj 0 false (empty_path 5 0) false reads = Ret p s ps /\
+    lammps_run true ord left right false traj 0 true false (empty_path 5 0) false reads = Ret p s ps /\
     run_frames true left right (empty_path 5 0) (own_stream ord false traj) <> SStop p s /\
-    lammps_run true ord left right false traj 0 true (empty_path 5 0) false reads <> Ret p s ps.
+    lammps_run true ord left right false traj 0 true true (empty_path 5 0) false reads <> Ret p s ps.
 Proof. exact lammps_pop_last_refuted. Qed.
 Print Assumptions C12_lammps_pop_last_refuted.
 
-Theorem C12_lammps_pop_last_harmless_const_box : forall fx ord left right rv traj code b p0 dead reads,
+Theorem C12_lammps_pop_last_harmless_const_box : forall fx ord left right rv traj code strict b p0 dead reads,
   Forall (fun c => cbox c = b) traj ->
-  lammps_run fx ord left right rv traj code false p0 dead reads =
-  lammps_run fx ord left right rv traj code true p0 dead reads.
+  lammps_run fx ord left right rv traj code strict false p0 dead reads =
+  lammps_run fx ord left right rv traj code strict true p0 dead reads.
 Proof. exact lammps_original_const_box. Qed.
 Print Assumptions C12_lammps_pop_last_harmless_const_box.
 
@@ -147,39 +150,39 @@ Example C12_lammps_example :
   let traj := [mkC 0 1 10; mkC 1 2 20; mkC 2 3 30; mkC 3 4 40] in
   let reads := [(0%nat, true); (2%nat, true); (3%nat, true); (4%nat, false)] in
   Forall (fun cb => (fst cb <= length traj)%nat) reads /\ vmax reads = length traj /\
-  lammps_run true (fun p v b => p + v + b) (-5) 30 false traj 0 true (empty_path 9 0) false reads
+  lammps_run true (fun p v b => p + v + b) (-5) 30 false traj 0 true true (empty_path 9 0) false reads
   = Ret (mkP [mkF 11 0 false 0; mkF 23 1 false 1; mkF 35 2 false 2] 9 0) true PKilled.
 Proof. cbn zeta. split; [repeat constructor|]. split; vm_compute; reflexivity. Qed.
 
 (* ---------------------------------------------------------------- CP2K *)
 (* two files, two readers: frame k = (position k, velocity k, the initial box); the frames
    processed are those for which both were ever visible *)
-Theorem C12_cp2k_prefix_until_stop : forall fx ord left right rv traj code box0 p0 reads,
+Theorem C12_cp2k_prefix_until_stop : forall fx ord left right rv traj code strict box0 p0 reads,
   reads_ok traj reads ->
-  same_outcome code (cp2k_run fx ord left right rv traj code box0 p0 false reads)
+  same_outcome code strict (cp2k_run fx ord left right rv traj code strict box0 p0 false reads)
     (run_frames fx left right p0
        (own_stream ord rv (map (fixbox box0) (firstn (Nat.min (pmax reads) (qmax reads)) traj)))).
 Proof. exact cp2k_any_schedule. Qed.
 Print Assumptions C12_cp2k_prefix_until_stop.
 
-Theorem C12_cp2k_returns_prefix : forall fx ord left right rv traj code box0 p0 dead reads p s ps,
+Theorem C12_cp2k_returns_prefix : forall fx ord left right rv traj code strict box0 p0 dead reads p s ps,
   reads_ok traj reads ->
-  cp2k_run fx ord left right rv traj code box0 p0 dead reads = Ret p s ps ->
+  cp2k_run fx ord left right rv traj code strict box0 p0 dead reads = Ret p s ps ->
   run_frames fx left right p0 (own_stream ord rv (map (fixbox box0) traj)) = SStop p s.
 Proof. exact cp2k_returns_prefix. Qed.
 Print Assumptions C12_cp2k_returns_prefix.
 
 Theorem C12_cp2k_failure_raises : forall fx ord left right rv traj code box0 p0 dead reads,
   code <> 0 ->
-  match cp2k_run fx ord left right rv traj code box0 p0 dead reads with
+  match cp2k_run fx ord left right rv traj code true box0 p0 dead reads with
   | Trunc _ _ => False
   | _ => True
   end.
-Proof. exact cp2k_failure_raises. Qed.
+Proof. exact cp2k_failure_raises_strict. Qed.
 Print Assumptions C12_cp2k_failure_raises.
 
-Theorem C12_cp2k_terminated_at_end : forall fx ord left right rv traj code box0 p0 dead reads,
-  pstate_of (cp2k_run fx ord left right rv traj code box0 p0 dead reads) <> Some PRunning.
+Theorem C12_cp2k_terminated_at_end : forall fx ord left right rv traj code strict box0 p0 dead reads,
+  pstate_of (cp2k_run fx ord left right rv traj code strict box0 p0 dead reads) <> Some PRunning.
 Proof. exact cp2k_terminated_at_end. Qed.
 Print Assumptions C12_cp2k_terminated_at_end.
 
@@ -187,7 +190,7 @@ Example C12_cp2k_example :
   let traj := [mkC 0 1 7; mkC 1 2 7; mkC 2 3 7; mkC 3 4 7] in
   let reads := [(1%nat, 0%nat, true); (3%nat, 1%nat, true); (3%nat, 4%nat, true); (4%nat, 4%nat, false)] in
   reads_ok traj reads /\
-  cp2k_run true (fun p v b => 10 * p + v + b) (-5) 25 true traj 0 7 (empty_path 9 0) false reads
+  cp2k_run true (fun p v b => 10 * p + v + b) (-5) 25 true traj 0 true 7 (empty_path 9 0) false reads
   = Ret (mkP [mkF 6 0 true 0; mkF 15 1 true 1; mkF 24 2 true 2; mkF 33 3 true 3] 9 0) true (PExited 0).
 Proof. cbn zeta. split; [repeat constructor|]. vm_compute. reflexivity. Qed.
 
@@ -195,36 +198,36 @@ Proof. cbn zeta. split; [repeat constructor|]. vm_compute. reflexivity. Qed.
 (* the TRR polling state machine, for ANY sequence of observed file sizes: whatever it returns
    is the stop rule over the frames in file order, each consumed exactly once (gres_ok);
    runs that wait forever for the data block of a dead program (Hang) are outside the statement *)
-Theorem C12_gromacs_any_schedule : forall fx ord left right rv traj code fixL3 fixL14 hsz dsz head0 final_size p0 dead eps,
-  gres_ok fx ord left right rv code fixL3 p0 0 traj
-    (gromacs_run fx ord left right rv traj code fixL3 fixL14 hsz dsz head0 final_size p0 dead eps).
+Theorem C12_gromacs_any_schedule : forall fx ord left right rv traj code strict fixL3 fixL14 hsz dsz head0 final_size p0 dead eps,
+  gres_ok fx ord left right rv code strict fixL3 p0 0 traj
+    (gromacs_run fx ord left right rv traj code strict fixL3 fixL14 hsz dsz head0 final_size p0 dead eps).
 Proof. exact gromacs_any_schedule. Qed.
 Print Assumptions C12_gromacs_any_schedule.
 
 (* own data: repaired double negation (fixL3), or forward direction, or a velocity-direction
    independent order parameter *)
-Theorem C12_gromacs_returns_prefix : forall fx ord left right rv traj code fixL3 fixL14 hsz dsz head0 final_size p0 dead eps p s ps,
+Theorem C12_gromacs_returns_prefix : forall fx ord left right rv traj code strict fixL3 fixL14 hsz dsz head0 final_size p0 dead eps p s ps,
   gmx_own_cond ord rv fixL3 ->
-  gromacs_run fx ord left right rv traj code fixL3 fixL14 hsz dsz head0 final_size p0 dead eps = Ret p s ps ->
+  gromacs_run fx ord left right rv traj code strict fixL3 fixL14 hsz dsz head0 final_size p0 dead eps = Ret p s ps ->
   run_frames fx left right p0 (own_stream ord rv traj) = SStop p s.
 Proof. exact gromacs_returns_prefix. Qed.
 Print Assumptions C12_gromacs_returns_prefix.
 
 Theorem C12_gromacs_failure_raises : forall fx ord left right rv traj code fixL3 fixL14 hsz dsz head0 final_size p0 dead eps,
   code <> 0 ->
-  match gromacs_run fx ord left right rv traj code fixL3 fixL14 hsz dsz head0 final_size p0 dead eps with
+  match gromacs_run fx ord left right rv traj code true fixL3 fixL14 hsz dsz head0 final_size p0 dead eps with
   | Trunc _ _ => False
   | _ => True
   end.
-Proof. exact gromacs_failure_raises. Qed.
+Proof. exact gromacs_failure_raises_strict. Qed.
 Print Assumptions C12_gromacs_failure_raises.
 
 (* lead L3: reverse = True with a velocity-dependent order parameter, code as it is *)
 Theorem C12_gromacs_double_negation_refuted :
   exists ord left right traj eps p s ps,
-    gromacs_run true ord left right true traj 0 false false 10 20 10 60 (empty_path 2 0) false eps = Ret p s ps /\
+    gromacs_run true ord left right true traj 0 true false false 10 20 10 60 (empty_path 2 0) false eps = Ret p s ps /\
     run_frames true left right (empty_path 2 0) (own_stream ord true traj) <> SStop p s /\
-    gromacs_run true ord left right true traj 0 true false 10 20 10 60 (empty_path 2 0) false eps <> Ret p s ps.
+    gromacs_run true ord left right true traj 0 true true false 10 20 10 60 (empty_path 2 0) false eps <> Ret p s ps.
 Proof. exact gromacs_double_negation_refuted. Qed.
 Print Assumptions C12_gromacs_double_negation_refuted.
 
@@ -233,16 +236,88 @@ Print Assumptions C12_gromacs_double_negation_refuted.
    the statements above); with the repaired wait loop the failure raises *)
 Theorem C12_gromacs_midframe_crash_refuted :
   exists ord left right traj eps p,
-    gromacs_run true ord left right false traj 1 true false 10 20 10 45 (empty_path 5 0) false eps = Hang p /\
-    gromacs_run true ord left right false traj 1 true true 10 20 10 45 (empty_path 5 0) false eps = Raise p (PExited 1).
+    gromacs_run true ord left right false traj 1 true true false 10 20 10 45 (empty_path 5 0) false eps = Hang p /\
+    gromacs_run true ord left right false traj 1 true true true 10 20 10 45 (empty_path 5 0) false eps = Raise p (PExited 1).
 Proof. exact gromacs_midframe_crash_refuted. Qed.
 Print Assumptions C12_gromacs_midframe_crash_refuted.
 
 Example C12_gromacs_example :
   gromacs_run true (fun p v b => p + v + b) (-5) 30 false
-    [mkC 0 1 10; mkC 1 2 20; mkC 2 3 30; mkC 3 4 40] 0 false false 10 20 25 120 (empty_path 9 0) false
+    [mkC 0 1 10; mkC 1 2 20; mkC 2 3 30; mkC 3 4 40] 0 true false false 10 20 25 120 (empty_path 9 0) false
     [0; 12; 30; 40; 95]%nat
   = Ret (mkP [mkF 11 0 false 0; mkF 23 1 false 1; mkF 35 2 false 2] 9 0) true PKilled.
+Proof. vm_compute. reflexivity. Qed.
+
+(* ---------------------------------------------------------------- engine failure: the return code
+   "an engine failure raises instead of returning a silently truncated path", for EVERY way the
+   external program can fail.  The return code is signed: subprocess reports -N for a program
+   killed by signal N (SIGKILL -9 from the OOM killer or a batch system, SIGSEGV -11, a SIGTERM
+   -15 the engine did not send).  The failure test of /repo, `return_code != 0` / `poll != 0`,
+   is [exit_failed true]: *)
+Theorem C12_failure_test_is_nonzero : forall code, exit_failed true code = true <-> code <> 0.
+Proof. exact exit_failed_strict. Qed.
+Print Assumptions C12_failure_test_is_nonzero.
+
+(* a death by signal IS a failure for the test as it is, and is NOT one for the variant `> 0`;
+   on the exit statuses of a program that exited (>= 0) the two tests agree - which is why the
+   variant survives every scenario with positive exit codes only *)
+Theorem C12_signal_death_is_failure : forall code, code < 0 ->
+  exit_failed true code = true /\ exit_failed false code = false.
+Proof. exact exit_failed_signal. Qed.
+Print Assumptions C12_signal_death_is_failure.
+
+Theorem C12_failure_tests_agree_on_exit_statuses : forall code, 0 <= code ->
+  exit_failed false code = exit_failed true code.
+Proof. exact exit_failed_nonneg. Qed.
+Print Assumptions C12_failure_tests_agree_on_exit_statuses.
+
+(* death by signal => never a normal return without a stop: LAMMPS (both pairings), CP2K,
+   GROMACS (all variants of L3 / L14), any trajectory, any arrival schedule, died before any
+   output or later *)
+Theorem C12_signal_death_raises : forall fx ord left right rv traj code, code < 0 ->
+  (forall fixL2 p0 dead reads,
+     match lammps_run fx ord left right rv traj code true fixL2 p0 dead reads with Trunc _ _ => False | _ => True end) /\
+  (forall box0 p0 dead reads,
+     match cp2k_run fx ord left right rv traj code true box0 p0 dead reads with Trunc _ _ => False | _ => True end) /\
+  (forall fixL3 fixL14 hsz dsz head0 final_size p0 dead eps,
+     match gromacs_run fx ord left right rv traj code true fixL3 fixL14 hsz dsz head0 final_size p0 dead eps with
+     | Trunc _ _ => False | _ => True end).
+Proof. exact signal_death_raises. Qed.
+Print Assumptions C12_signal_death_raises.
+
+(* the variant `> 0` refuted, engine by engine: killed by SIGKILL (-9) after frames among which
+   the stop rule never fires (run_frames ... = SMore p), the variant returns normally with that
+   truncated path, the test as it is raises *)
+Theorem C12_gromacs_signal_death_gt0_refuted :
+  exists ord left right traj eps p,
+    run_frames true left right (empty_path 9 0) (own_stream ord false traj) = SMore p /\
+    gromacs_run true ord left right false traj (-9) false true true 10 20 10 90 (empty_path 9 0) false eps
+      = Trunc p (PExited (-9)) /\
+    gromacs_run true ord left right false traj (-9) true true true 10 20 10 90 (empty_path 9 0) false eps
+      = Raise p (PExited (-9)).
+Proof. exact gromacs_signal_death_gt0_refuted. Qed.
+Print Assumptions C12_gromacs_signal_death_gt0_refuted.
+
+Theorem C12_lammps_signal_death_gt0_refuted :
+  exists ord left right traj reads p,
+    run_frames true left right (empty_path 9 0) (own_stream ord false traj) = SMore p /\
+    lammps_run true ord left right false traj (-9) false true (empty_path 9 0) false reads = Trunc p (PExited (-9)) /\
+    lammps_run true ord left right false traj (-9) true true (empty_path 9 0) false reads = Raise p (PExited (-9)).
+Proof. exact lammps_signal_death_gt0_refuted. Qed.
+Print Assumptions C12_lammps_signal_death_gt0_refuted.
+
+Theorem C12_cp2k_signal_death_gt0_refuted :
+  exists ord left right traj reads p,
+    run_frames true left right (empty_path 9 0) (own_stream ord false (map (fixbox 7) traj)) = SMore p /\
+    cp2k_run true ord left right false traj (-9) false 7 (empty_path 9 0) false reads = Trunc p (PExited (-9)) /\
+    cp2k_run true ord left right false traj (-9) true 7 (empty_path 9 0) false reads = Raise p (PExited (-9)).
+Proof. exact cp2k_signal_death_gt0_refuted. Qed.
+Print Assumptions C12_cp2k_signal_death_gt0_refuted.
+
+Example C12_signal_death_example :
+  gromacs_run true (fun p v b => p) (-5) 50 false [mkC 0 1 0; mkC 1 1 0; mkC 2 1 0] (-11) true true true
+    10 20 10 75 (empty_path 9 0) false [30; 75]%nat
+  = Raise (mkP [mkF 0 0 false 0; mkF 1 1 false 1] 9 0) (PExited (-11)).
 Proof. vm_compute. reflexivity. Qed.
 
 (* ---------------------------------------------------------------- in-process engines *)
